@@ -198,6 +198,7 @@ inductive Err where
   | plugin     -- loadSegmentPlugin: unsupported type/version
   | segment    -- segment file cannot be loaded
   | noSnapshot -- OpenReader: unable to find a usable snapshot
+  | length     -- loadSnapshot: the decoder did not account for every byte in front of the CRC
 deriving DecidableEq, Repr
 
 /-- the statement at which an unsafe outcome arises -/
@@ -244,16 +245,21 @@ structure Cfg where
   uintLoop : Bool
   /-- `loadSnapshot` copies the 4 CRC bytes before `closer.Close()` -/
   crcCopy : Bool
+  /-- every `binary.Uvarint` result is checked (`if n <= 0 { return error }`: a field that is missing or
+      unterminated at the end of the input is an error instead of the value 0), and `loadSnapshot` compares the
+      byte count `ReadFrom` reports with the body length (`data.Len() - crcWidth`) -/
+  lengthChecked : Bool
 deriving DecidableEq, Repr
 
-def Cfg.pinned : Cfg := { boundedReads := false, uintLoop := false, crcCopy := false }
-def Cfg.guarded : Cfg := { boundedReads := true, uintLoop := true, crcCopy := true }
+def Cfg.pinned : Cfg := { boundedReads := false, uintLoop := false, crcCopy := false, lengthChecked := false }
+def Cfg.guarded : Cfg := { boundedReads := true, uintLoop := true, crcCopy := true, lengthChecked := true }
 
 /-- The configuration that matches /repo's current source: `BlugeGen.C12` is regenerated by
 `go/extract/c12.go` from `index/snapshot.go` and `index/writer.go` on every run of `./check C12`, and the
 correspondence run compares this model with the real code. -/
 def currentCfg : Cfg :=
-  { boundedReads := BlugeGen.C12.boundedReads, uintLoop := BlugeGen.C12.uintLoop, crcCopy := BlugeGen.C12.crcCopy }
+  { boundedReads := BlugeGen.C12.boundedReads, uintLoop := BlugeGen.C12.uintLoop, crcCopy := BlugeGen.C12.crcCopy,
+    lengthChecked := BlugeGen.C12.lengthChecked }
 
 /-- `maxAlloc` of the Go runtime on linux/amd64 (`1 << heapAddrBits`): a larger `make` panics -/
 def maxAlloc : Nat := 2 ^ 48
@@ -338,6 +344,20 @@ def peekUvarint (inp : Bytes) (strict : Bool) (r : Rd) : Outcome (Nat × Nat × 
       let (k, e, r) := discard inp n.toNat r
       if e then error .eof else ok (v, k, r)
 
+/-- the same idiom in the configured code: with `cfg.lengthChecked` an `if n <= 0 { return error }` stands
+between `binary.Uvarint` and `Discard` (`n < 0`: overflow, as before; `n = 0`: fewer than 10 bytes are left
+and none of them ends a uvarint — without the check the decoder goes on with the value 0 and discards nothing) -/
+def peekUvarintC (cfg : Cfg) (inp : Bytes) (strict : Bool) (r : Rd) : Outcome (Nat × Nat × Rd) :=
+  let (pk, e, r) := peek10 inp r
+  if strict && e then error .eof
+  else
+    let (v, n) := uvarint pk
+    if n < 0 then error .negCount
+    else if cfg.lengthChecked && n == 0 then error .eof
+    else
+      let (k, e, r) := discard inp n.toNat r
+      if e then error .eof else ok (v, k, r)
+
 /-- read `n` bytes whose count came from the file, as the configured code does it for the *type string*:
 pinned: `make([]byte, n)` then ONE `Read` (short reads leave the tail zero);
 repaired: `readN`. Result: the `n`-byte buffer, count reported, reader. -/
@@ -354,7 +374,7 @@ def readStrBytes (cfg : Cfg) (inp : Bytes) (lim n : Nat) (r : Rd) : Outcome (Byt
 
 /-- `readVarLenString` -/
 def readVarLenString (cfg : Cfg) (inp : Bytes) (lim : Nat) (r : Rd) : Outcome (Bytes × Nat × Rd) := do
-  let (strLen, k, r) ← peekUvarint inp (!cfg.boundedReads) r
+  let (strLen, k, r) ← peekUvarintC cfg inp (!cfg.boundedReads) r
   let (s, k2, r) ← readStrBytes cfg inp lim strLen r
   ok (s, k + k2, r)
 
@@ -380,8 +400,8 @@ def readSegment (cfg : Cfg) (inp : Bytes) (lim : Nat) (r : Rd) : Outcome (Seg R 
   if e then error .eof
   else do
     let ver := be32get vb
-    let (id, n3, r) ← peekUvarint inp false r
-    let (delLen, n4, r) ← peekUvarint inp false r
+    let (id, n3, r) ← peekUvarintC cfg inp false r
+    let (delLen, n4, r) ← peekUvarintC cfg inp false r
     if delLen > 0 then do
       let (db, r) ← readDelBytes cfg inp lim delLen r
       match ro.dec db with
@@ -407,9 +427,9 @@ def loopCount (cfg : Cfg) (numSegments : Nat) : Nat :=
 
 /-- `(*Snapshot).ReadFrom` on the reader state `r`: segments, byte count reported, final reader -/
 def readFromRd (cfg : Cfg) (inp : Bytes) (lim : Nat) (r : Rd) : Outcome (List (Seg R) × Nat × Rd) := do
-  let (v, n0, r) ← peekUvarint inp false r
+  let (v, n0, r) ← peekUvarintC cfg inp false r
   if v = 1 then do
-    let (numSegments, n1, r) ← peekUvarint inp false r
+    let (numSegments, n1, r) ← peekUvarintC cfg inp false r
     let (ss, m, r) ← readSegments ro cfg inp lim (loopCount cfg numSegments) r
     ok (ss, n0 + n1 + m, r)
   else error .version
@@ -431,6 +451,64 @@ def decode (cfg : Cfg) (inp : Bytes) : Outcome (List (Seg R)) :=
   | alloc s n => alloc s n
   | fault s => fault s
 
+
+/-! ## the decoder without the buffer: what it reads as a function of the remaining bytes alone
+
+`sDecode` is the grammar the repaired decoder implements (`cfg.boundedReads`: full reads), as a plain function on
+byte lists: no `bufio`, no reader state. `BlugeProofs.C12.readFrom_eq_sDecode` proves that the byte-exact model
+`readFrom` computes exactly this, wherever the 4096-byte buffer edges fall, and reports as its byte count the
+number of bytes consumed. `lc` = `cfg.lengthChecked`. -/
+
+/-- one uvarint field at the front of the remaining bytes `s`: value and bytes consumed.
+`n = 0` (fewer than 10 bytes left, none of them final): value 0, nothing consumed — unless `lc`. -/
+def sUvarint (lc : Bool) (s : Bytes) : Outcome (Nat × Nat) :=
+  let (v, n) := uvarint (s.take 10)
+  if n < 0 then error .negCount
+  else if lc && n == 0 then error .eof
+  else ok (v, n.toNat)
+
+/-- a length-prefixed string at the front of `s` -/
+def sStr (lc : Bool) (s : Bytes) : Outcome (Bytes × Nat) := do
+  let (len, k) ← sUvarint lc s
+  if (s.drop k).length < len then error .eof else ok ((s.drop k).take len, k + len)
+
+/-- one segment record at the front of `s`: the segment and the bytes consumed -/
+def sSegment (lc : Bool) (s : Bytes) : Outcome (Seg R × Nat) := do
+  let (typ, n1) ← sStr lc s
+  let s2 := s.drop n1
+  if s2.length < 4 then error .eof
+  else do
+    let (id, n3) ← sUvarint lc (s2.drop 4)
+    let s4 := (s2.drop 4).drop n3
+    let (dlen, n4) ← sUvarint lc s4
+    let s5 := s4.drop n4
+    if dlen > 0 then
+      if s5.length < dlen then error .eof
+      else
+        match ro.dec (s5.take dlen) with
+        | none => error .roaring
+        | some d =>
+          ok ({ id := BitVec.ofNat 64 id, typ := typ, ver := be32get (s2.take 4),
+                deleted := if ro.isEmpty d then none else some d }, n1 + 4 + n3 + n4 + dlen)
+    else
+      ok ({ id := BitVec.ofNat 64 id, typ := typ, ver := be32get (s2.take 4), deleted := none }, n1 + 4 + n3 + n4)
+
+def sSegments (lc : Bool) : Nat → Bytes → Outcome (List (Seg R) × Nat)
+  | 0, _ => ok ([], 0)
+  | cnt + 1, s => do
+    let (x, n) ← sSegment ro lc s
+    let (xs, m) ← sSegments lc cnt (s.drop n)
+    ok (x :: xs, n + m)
+
+/-- the whole body: segments and bytes consumed (what follows them is not looked at) -/
+def sDecode (lc : Bool) (s : Bytes) : Outcome (List (Seg R) × Nat) := do
+  let (v, k0) ← sUvarint lc s
+  if v = 1 then do
+    let (cnt, k1) ← sUvarint lc (s.drop k0)
+    let (ss, m) ← sSegments ro lc cnt ((s.drop k0).drop k1)
+    ok (ss, k0 + k1 + m)
+  else error .version
+
 /-! ## loadSnapshot -/
 
 /-- the bytes `loadSnapshot` lets the decoder see: `io.LimitReader(data.Reader(), int64(data.Len()-4))`
@@ -445,8 +523,10 @@ def trailerOf (file : Bytes) : Bytes := file.drop (file.length - 4)
 def loadSnapshot (cfg : Cfg) (mmap : Bool) (file : Bytes) : Outcome (List (Seg R)) :=
   let body := bodyOf file
   match readFrom ro cfg body with
-  | ok (ss, _, r) =>
-    if file.length < 4 then .panic .crcBytes    -- d.mem[start:end] with start < 0 (not reachable: see `short_file_rejected`)
+  | ok (ss, n, r) =>
+    -- repaired: `if bytesRead != int64(data.Len()-crcWidth) { close; return error }`
+    if cfg.lengthChecked && n != body.length then error .length
+    else if file.length < 4 then .panic .crcBytes    -- d.mem[start:end] with start < 0 (not reachable: see `short_file_rejected`)
     else
       let computed := be32 (crc32 (body.take r.pos))
       if computed = trailerOf file then ok ss
